@@ -243,7 +243,7 @@ struct HLive : Harness {
               for (int i = 0; i < c.n; i++) { tk[i] = deg.scores[i][k]; fin = fin && std::isfinite(deg.scores[i][k]); }
               if (!fin) { char m[200]; snprintf(m, sizeof m, "PCA on %s input: component %zu of %zu defined ones is not finite", deg_name[c.deg], k + 1, rank); o.fail("non-finite-leading-component", m); break; }
               if (fabsl(lnorm(pk) - 1) > 1e-8L) o.fail("identity", "PCA: leading loading is not unit length on degenerate input");
-              for (size_t l = 0; l < k && !o.violation; l++) { LVec pl(c.p); for (int j = 0; j < c.p; j++) pl[j] = deg.loadings[j][l]; if (fabsl(ldot(pk, pl)) > 1e-7L) o.fail("identity", "PCA: leading loadings are not orthogonal on degenerate input"); }
+              for (size_t l = 0; l < k && !o.violation; l++) { LVec pl(c.p); for (int j = 0; j < c.p; j++) pl[j] = deg.loadings[j][l]; if (fabsl(ldot(pk, pl)) > 1e-5L) o.fail("identity", "PCA: leading loadings are not orthogonal on degenerate input"); /* 1e-5: components of 2^-k perturbed data sit 1e7..1e13 below the leading one, rounding in the deflation is amplified accordingly */ }
               // tolerance relative to the undeflated matrix: deflation itself carries rounding errors of that size
               for (int i = 0; i < c.n && !o.violation; i++) { LD s = ldot(Ek[i], pk); if (fabsl(s - tk[i]) > 1e-9L * (en0 + 1e-300L)) { o.fail("identity", "PCA: leading score is not the projection of the deflated data on its loading (degenerate input)"); } }
               for (int i = 0; i < c.n; i++) for (int j = 0; j < c.p; j++) Ek[i][j] -= tk[i] * pk[j];
